@@ -269,6 +269,8 @@ _NOD = object()
 
 
 def sx_min(*args, key=None, default=_NOD):
+    if len(args) == 1:
+        args = (list(args[0]),)          # an iterator argument must not be consumed twice
     r = _minmax(args, key, default, lambda kb, kc: kb <= kc)
     if r is None:
         return builtins.min(*args) if default is _NOD else builtins.min(*args, default=default)
@@ -276,6 +278,8 @@ def sx_min(*args, key=None, default=_NOD):
 
 
 def sx_max(*args, key=None, default=_NOD):
+    if len(args) == 1:
+        args = (list(args[0]),)          # an iterator argument must not be consumed twice
     r = _minmax(args, key, default, lambda kb, kc: kb >= kc)
     if r is None:
         return builtins.max(*args) if default is _NOD else builtins.max(*args, default=default)
@@ -458,4 +462,9 @@ def selftest():
     assert sx_isinstance(b'a', (str, bytes)) and not sx_isinstance(5, str) and sx_isinstance(5, int)
     assert isinstance('a', sx_str_t) and not isinstance(5, sx_str_t) and isinstance(5, sx_int_t) and isinstance(True, sx_int_t)
     assert sx_bytes([1, 2]) == b'\x01\x02' and sx_bytes(b'ab') == b'ab' and sx_bytes(2) == b'\0\0'
-    return n + 9
+    # iterator arguments are consumed exactly once
+    assert sx_max(map(len, [[1], [1, 2]])) == 2 and sx_min(iter([3, 1, 2])) == 1 and sx_max(iter([]), default=7) == 7
+    assert sx_max(map(len, []), default=0) == 0 and sx_sum((i for i in range(4)), 10) == 16
+    assert sx_any(iter([0, 0, 1])) is True and sx_all(iter([1, 1, 0])) is False
+    assert sx_bytes(i for i in range(3)) == b'\x00\x01\x02' and list(sx_bytearray(i for i in range(3))) == [0, 1, 2]
+    return n + 16
